@@ -11,8 +11,10 @@ import (
 	"os"
 	"os/exec"
 	"path/filepath"
+	"runtime"
 	"sort"
 	"strings"
+	"sync"
 	"time"
 )
 
@@ -90,8 +92,43 @@ func hx(b []byte) string {
 
 func hs(s string) string { return hx([]byte(s)) }
 
-// Model pipes the lines through the Lean driver and returns one output line per input line.
+// Model pipes the lines through the Lean driver and returns one output line per input line. Large batches are
+// split over several driver processes (the driver is single-threaded; the cases are independent).
 func (c *Ctx) Model(lines []string) []string {
+	if len(lines) == 0 {
+		return nil
+	}
+	workers := runtime.NumCPU() / 2
+	if workers > 8 {
+		workers = 8
+	}
+	if workers < 1 || len(lines) < 64 {
+		workers = 1
+	}
+	res := make([]string, len(lines))
+	var wg sync.WaitGroup
+	// interleaved assignment balances cheap and expensive families across the workers
+	for w := 0; w < workers; w++ {
+		wg.Add(1)
+		go func(w int) {
+			defer wg.Done()
+			var idx []int
+			var part []string
+			for i := w; i < len(lines); i += workers {
+				idx = append(idx, i)
+				part = append(part, lines[i])
+			}
+			out := c.modelOne(part)
+			for k, i := range idx {
+				res[i] = out[k]
+			}
+		}(w)
+	}
+	wg.Wait()
+	return res
+}
+
+func (c *Ctx) modelOne(lines []string) []string {
 	if len(lines) == 0 {
 		return nil
 	}
